@@ -920,13 +920,13 @@ theorem RelB.of_append {c : Cfg} {B B1 : List Block} {nb : Block} {x : Arr} (hx 
     exact ⟨B.set b blk', Or.inr ⟨b, blk, blk', hpos, hb, hB, hf, rfl, r⟩, by rw [hB', List.set_append_left _ _ hlt]⟩
 
 /-- what adoption of a newly built block (or of nothing) does to a heap `B1` obtained from `B` -/
-def NewB (c : Cfg) (B B1 B2 : List Block) (x' : Arr) : Prop :=
+def NewB (c : Cfg) (a : AllocId) (B B1 B2 : List Block) (x' : Arr) : Prop :=
   (x'.n = 0 ∧ B2 = B1) ∨
   (∃ nb, 0 < x'.n ∧ x'.base = some B.length ∧ B2 = B1 ++ [nb] ∧ nb.freed = false ∧ nb.size = x'.n ∧ CellsOK c nb ∧
-      c.eqv nb.alloc x'.alloc = true)
+      nb.alloc = a)
 
-theorem Inv.replace {c : Cfg} {B B1 B2 : List Block} {A : List (Option Arr)} {i : Nat} {x x' : Arr}
-    (h : Inv c B A) (hi : A[i]? = some (some x)) (hr : RelB c B B1 x) (hnew : NewB c B B1 B2 x') :
+theorem Inv.replace {c : Cfg} {a : AllocId} {B B1 B2 : List Block} {A : List (Option Arr)} {i : Nat} {x x' : Arr}
+    (h : Inv c B A) (hi : A[i]? = some (some x)) (hr : RelB c B B1 x) (hnew : NewB c a B B1 B2 x') :
     Inv c B2 (A.set i (some x')) := by
   have hlt : i < A.length := (List.getElem?_eq_some_iff.mp hi).1
   have hlen := hr.length
@@ -943,8 +943,9 @@ theorem Inv.replace {c : Cfg} {B B1 B2 : List Block} {A : List (Option Arr)} {i 
     have := Inv.install h1 hi1 (fun b => ownsB_empty b rfl) hpos (by rw [hbase, hlen]) hfr hsz hc
     rwa [List.set_set] at this
 
-theorem InvA.replace {c : Cfg} {B B1 B2 : List Block} {A : List (Option Arr)} {i : Nat} {x x' : Arr}
-    (hA : InvA c B A) (h : Inv c B A) (hi : A[i]? = some (some x)) (hr : RelB c B B1 x) (hnew : NewB c B B1 B2 x') :
+theorem InvA.replace {c : Cfg} {a : AllocId} {B B1 B2 : List Block} {A : List (Option Arr)} {i : Nat} {x x' : Arr}
+    (hA : InvA c B A) (h : Inv c B A) (hi : A[i]? = some (some x)) (hr : RelB c B B1 x) (hnew : NewB c a B B1 B2 x')
+    (hal : c.eqv a x'.alloc = true) :
     InvA c B2 (A.set i (some x')) := by
   have hlt : i < A.length := (List.getElem?_eq_some_iff.mp hi).1
   have hlen := hr.length
@@ -959,23 +960,169 @@ theorem InvA.replace {c : Cfg} {B B1 B2 : List Block} {A : List (Option Arr)} {i
       have heq : c.eqv blk'.freedBy blk'.alloc = true := by
         rw [hby, hal]; exact eqv_symm (hA.ownerEq i x b blk hi hpos hb hB hf)
       exact InvA.release hA h hi hpos hb hB hf hfr heq (fun y hy => by cases hy; rfl)
-  rcases hnew with ⟨hn, hb⟩ | ⟨nb, hpos, hbase, hb, hfr, hsz, hc, heq⟩
+  rcases hnew with ⟨hn, hb⟩ | ⟨nb, hpos, hbase, hb, hfr, hsz, hc, hna⟩
   · rw [hb]
     have := InvA.set_nonowning h1 (i := i) (new := some x') (fun y hy => by cases hy; exact hn)
     rwa [List.set_set] at this
   · rw [hb]
-    have := InvA.install h1 hI1 (i := i) (a := x') (by rw [hbase, hlen]) hfr heq
+    have := InvA.install h1 hI1 (i := i) (a := x') (by rw [hbase, hlen]) hfr (by rw [hna]; exact hal)
     rwa [List.set_set] at this
 
 /-- `Built` seen as `NewB` -/
 theorem Built.newB {c : Cfg} {a : AllocId} {n : Nat} {s s1 : St} {p : Option Nat} (hb : Built c a n s s1 p)
-    {B1 : List Block} {x' : Arr} (hxb : x'.base = p) (hxn : x'.n = n) (hal : c.eqv a x'.alloc = true) :
-    (n = 0 ∧ s1.blocks = s.blocks ∧ NewB c s.blocks B1 B1 x') ∨
-    (∃ nb, s1.blocks = s.blocks ++ [nb] ∧ NewB c s.blocks B1 (B1 ++ [nb]) x') := by
+    {B1 : List Block} {x' : Arr} (hxb : x'.base = p) (hxn : x'.n = n) :
+    (n = 0 ∧ s1.blocks = s.blocks ∧ NewB c a s.blocks B1 B1 x') ∨
+    (∃ nb, s1.blocks = s.blocks ++ [nb] ∧ NewB c a s.blocks B1 (B1 ++ [nb]) x') := by
   obtain ⟨_, _, h⟩ := hb
   rcases h with ⟨hn, hp, hbl⟩ | ⟨blk, hn, hp, hbl, hfr, hsz, hc, hba⟩
   · exact Or.inl ⟨hn, hbl, Or.inl ⟨by omega, rfl⟩⟩
-  · exact Or.inr ⟨blk, hbl, Or.inr ⟨blk, by omega, by rw [hxb, hp], rfl, hfr, by omega, hc, by rw [hba]; exact hal⟩⟩
+  · exact Or.inr ⟨blk, hbl, Or.inr ⟨blk, by omega, by rw [hxb, hp], rfl, hfr, by omega, hc, hba⟩⟩
+
+theorem assignFill_spec (c : Cfg) (hok : c.OK) (i : Nat) (es : List Ext) (s : St) (hG : Good c s)
+    (happ : (Op.assignFill i es).applicable c s = true) (hfx : (Op.assignFill i es).fixedIn c = true) :
+    OpSpec c (.assignFill i es) s := by
+  obtain ⟨x, hx⟩ := alive_iff.mp happ
+  have hi := getArr_eq hx
+  have hlti : i < s.arrs.length := (List.getElem?_eq_some_iff.mp hi).1
+  have hfx7 : c.fx7 = true := hfx
+  unfold OpSpec
+  show Out (opAssignFill c i es s) _ _ _
+  unfold opAssignFill
+  rw [get_bind]
+  simp only [hx]
+  by_cases hsame : extsEq x.ext es = true
+  · simp only [hsame, if_true]
+    apply Out.mono (assignOwn_out (T := s.fuel ≠ none ∧ (Op.assignFill i es).isSaMove = true) c i x.n x s hG.1 hi (Nat.le_refl _)) _ _ id
+    · intro _ s' ⟨h1, h2, h3, h4⟩
+      refine ⟨⟨h1, by rw [h3]; exact hG.2⟩, h2, by rw [h3], fun _ => h4, ?_⟩
+      show allocOf s' i = allocOf s i
+      unfold allocOf getArr; rw [h3]
+    · intro s' ⟨h1, h2, h3⟩
+      exact ⟨h1, by rw [h3], h2, by rw [h3]; exact hG.2⟩
+  · simp only [hsame, Bool.false_eq_true, if_false, hfx7, if_true]
+    apply Out.bind (clearArr_out (T := s.fuel ≠ none ∧ (Op.assignFill i es).isSaMove = true) c hok.wf i x s hG.1 hi) _ (fun _ h => h)
+    intro x1 s1 ⟨hx1, hI1, hnf1, harr1, hA1⟩
+    have hi1 : s1.arrs[i]? = some (some x1) := by rw [harr1]; exact List.getElem?_set_self hlti
+    have hW1 : Wn s1.arrs := by
+      rw [harr1]; exact hG.2.set (fun z hz => by cases hz; rw [hx1]; show 0 = nElems (emptyExts c.dim); rw [nElems_emptyExts hok.dim])
+    apply Out.mono (rebuild_out (T := s.fuel ≠ none ∧ (Op.assignFill i es).isSaMove = true) c i x1 x1.alloc (nElems es) true
+      (fun p => { x1 with base := p, ext := reported es, n := nElems es }) s1 hI1 hW1 hi1 (by rw [hx1]) (by intro h; cases h)
+      (fun _ => rfl) (fun _ => rfl) (fun _ => by show nElems es = nElems (reported es); rw [nElems_reported]) (fun _ => eqv_refl c _)) _ _ id
+    · intro _ s' ⟨h4, h5, ⟨p, h6⟩, h7⟩
+      refine ⟨h4, fun h => h5 (hnf1 h), by rw [h6, harr1]; simp, fun _ hA => h7 (hA1 hA), ?_⟩
+      show allocOf s' i = allocOf s i
+      rw [allocOf_set_self h6 (by rw [harr1]; simp; exact hlti), allocOf_eq hx, hx1]
+    · intro s' ⟨h4, h5, h6⟩
+      exact ⟨fun h => h4 (hnf1 h), by rw [h6, harr1]; simp, h5⟩
+
+theorem reextentRv_spec (c : Cfg) (hok : c.OK) (i : Nat) (es : List Ext) (s : St) (hG : Good c s)
+    (happ : (Op.reextentRv i es).applicable c s = true) (hfx : (Op.reextentRv i es).fixedIn c = true) :
+    OpSpec c (.reextentRv i es) s := by
+  obtain ⟨x, hx⟩ := alive_iff.mp happ
+  have hi := getArr_eq hx
+  have hlti : i < s.arrs.length := (List.getElem?_eq_some_iff.mp hi).1
+  have hfx7 : c.fx7 = true := hfx
+  unfold OpSpec
+  show Out (opReextentRv c i es s) _ _ _
+  unfold opReextentRv
+  rw [get_bind]
+  simp only [hx]
+  by_cases hsame : extsEq x.ext es = true
+  · simp only [hsame, if_true]
+    apply Out.pure'
+    exact ⟨hG, NF.refl s, rfl, fun _ h => h, rfl⟩
+  · simp only [hsame, Bool.false_eq_true, if_false, hfx7, if_true]
+    apply Out.bind (clearArr_out (T := s.fuel ≠ none ∧ (Op.reextentRv i es).isSaMove = true) c hok.wf i x s hG.1 hi) _ (fun _ h => h)
+    intro x1 s1 ⟨hx1, hI1, hnf1, harr1, hA1⟩
+    have hi1 : s1.arrs[i]? = some (some x1) := by rw [harr1]; exact List.getElem?_set_self hlti
+    have hW1 : Wn s1.arrs := by
+      rw [harr1]; exact hG.2.set (fun z hz => by cases hz; rw [hx1]; show 0 = nElems (emptyExts c.dim); rw [nElems_emptyExts hok.dim])
+    apply Out.mono (rebuild_out (T := s.fuel ≠ none ∧ (Op.reextentRv i es).isSaMove = true) c i x1 x1.alloc (nElems es) (!c.trivCtor)
+      (fun p => { x1 with base := p, ext := reported es, n := nElems es }) s1 hI1 hW1 hi1 (by rw [hx1]) (by intro h; simpa using h)
+      (fun _ => rfl) (fun _ => rfl) (fun _ => by show nElems es = nElems (reported es); rw [nElems_reported]) (fun _ => eqv_refl c _)) _ _ id
+    · intro _ s' ⟨h4, h5, ⟨p, h6⟩, h7⟩
+      refine ⟨h4, fun h => h5 (hnf1 h), by rw [h6, harr1]; simp, fun _ hA => h7 (hA1 hA), ?_⟩
+      show allocOf s' i = allocOf s i
+      rw [allocOf_set_self h6 (by rw [harr1]; simp; exact hlti), allocOf_eq hx, hx1]
+    · intro s' ⟨h4, h5, h6⟩
+      exact ⟨fun h => h4 (hnf1 h), by rw [h6, harr1]; simp, h5⟩
+
+/-- `operator=(array{…, allocator})`: a temporary is built, then move-assigned (its destructor finds it empty) -/
+theorem assignFromTemp_out (c : Cfg) (hok : c.OK) (i : Nat) (x : Arr) (es : List Ext) (rowLen : Nat) (s : St) {T : Prop}
+    (hG : Good c s) (hi : s.arrs[i]? = some (some x)) (hfx : c.fx6 = true) :
+    Out (assignFromTemp c i x es rowLen s)
+      (fun _ s' => Good c s' ∧ NF s s' ∧ s'.arrs.length = s.arrs.length ∧
+        ((c.fx9 || c.pocma || c.iae) = true → InvAS c s → InvAS c s'))
+      (fun s' => s.fuel ≠ none ∧ s'.arrs.length = s.arrs.length ∧ Good c s') T := by
+  obtain ⟨hI, hW⟩ := hG
+  have hlti : i < s.arrs.length := (List.getElem?_eq_some_iff.mp hi).1
+  unfold assignFromTemp
+  generalize hta : (if c.fx9 = true then x.alloc else defaultAlloc) = ta
+  apply Out.bind (build_out (T := T) c ta (nElems es) true rowLen s hfx (by intro h; cases h))
+  · intro p s1 hb
+    refine Out.noexcept' (Q := fun _ => False) (T := False) ?_ (fun _ h => False.elim h) (fun h => False.elim h)
+    unfold moveAssignFrom
+    have hblk1 : HasBlock c s1.blocks x := by
+      have h0 := HasBlock.of_inv hI hi
+      obtain ⟨_, _, h⟩ := hb
+      rcases h with ⟨_, _, hbl⟩ | ⟨blk, _, _, hbl, _⟩
+      · rw [hbl]; exact h0
+      · rw [hbl]; exact h0.append blk
+    apply Out.bind (clearArr_raw (T := False) c hok.wf i x s1 hblk1) _ (fun _ h => h)
+    intro x1 s2 ⟨hx1, hnf2, harr2, sr, hr, hbl2⟩
+    apply Out.mono (setSlot_out i _ s2) _ (fun _ h => h) id
+    intro _ s3 h3
+    generalize hxf : ({ x1 with base := p, alloc := if c.pocma then ta else x1.alloc, ext := reported es, n := nElems es } : Arr) = xf
+    have hxfb : xf.base = p := by rw [← hxf]
+    have hxfn : xf.n = nElems es := by rw [← hxf]
+    have harr3 : s3.arrs = s.arrs.set i (some xf) := by
+      rw [h3.arrs, harr2, hb.2.1, List.set_set, hxf]
+    have hbl3 : s3.blocks = sr.blocks := by rw [h3.blocks, hbl2]
+    have hrel := hr.relB
+    -- the heap: release underneath the new block, then adopt it
+    have hfinal : ∃ B1, RelB c s.blocks B1 x ∧ NewB c ta s.blocks B1 s3.blocks xf := by
+      rcases hb.newB (B1 := sr.blocks) hxfb hxfn with ⟨_, hs1, hnew⟩ | ⟨nb, hs1, _⟩
+      · rw [hs1] at hrel
+        exact ⟨sr.blocks, hrel, by rw [hbl3]; exact hnew⟩
+      · rw [hs1] at hrel
+        obtain ⟨B0, hr0, hB0⟩ := RelB.of_append (HasBlock.of_inv hI hi) hrel
+        rcases hb.newB (B1 := B0) hxfb hxfn with ⟨hn0, hs1', _⟩ | ⟨nb', hs1', hnew⟩
+        · rw [hs1'] at hs1
+          have := congrArg List.length hs1
+          simp at this
+        · have : nb' = nb := by
+            rw [hs1'] at hs1
+            have := List.append_cancel_left hs1
+            simpa using this
+          subst this
+          exact ⟨B0, hr0, by rw [hbl3, hB0]; exact hnew⟩
+    obtain ⟨B1, hr0, hnew⟩ := hfinal
+    refine ⟨⟨?_, ?_⟩, fun h => h3.fuel (hnf2 (hb.1 h)), by rw [harr3, List.length_set], ?_⟩
+    · show Inv c s3.blocks s3.arrs
+      rw [harr3]; exact Inv.replace hI hi hr0 hnew
+    · rw [harr3]
+      exact hW.set (fun z hz => by cases hz; rw [← hxf]; show nElems es = nElems (reported es); rw [nElems_reported])
+    · intro hcase hA
+      show InvA c s3.blocks s3.arrs
+      by_cases hiae : c.iae = true
+      · exact InvA.of_iae hiae _ _
+      rw [harr3]
+      apply InvA.replace hA hI hi hr0 hnew
+      rw [← hxf]
+      show c.eqv ta (if c.pocma then ta else x1.alloc) = true
+      cases hp : c.pocma with
+      | true => exact eqv_refl c ta
+      | false =>
+        have hf9 : c.fx9 = true := by
+          simp only [Bool.or_eq_true] at hcase
+          rcases hcase with (h | h) | h
+          · exact h
+          · rw [hp] at h; cases h
+          · exact absurd h hiae
+        simp only [Bool.false_eq_true, if_false]
+        rw [← hta, hf9, hx1]; exact eqv_refl c _
+  · intro s1 ⟨hfu, hcl⟩
+    exact ⟨hfu, by rw [hcl.1], hcl.inv hI, by rw [hcl.1]; exact hW⟩
 
 end Ledger
 end Multi
